@@ -155,7 +155,7 @@ Open(k) ==
             /\ canRes' = (k = "smr")
             /\ req' = CancelAll(req)
     /\ out' = [a |-> "Open", id |-> "", cls |-> k, passed |-> 0]
-    /\ Log([a |-> "Open", k |-> k])
+    /\ Log([a |-> "Open", k |-> k, refused |-> (resumable /\ k # "resumed")])   \* refused: new session although the last one was resumable
     /\ UNCHANGED dead
 
 Close(k) ==
@@ -229,6 +229,19 @@ View  == <<up, smOn, canRes, resumable, dead, [i \in Ids |-> [req[i] EXCEPT !.c 
 \* the caller's id choice is part of the state for generation: an implementation that mishandles it
 \* has state the specification does not have, and only then do tours continue *after* such a send
 CidKind(c) == IF IsDup(c) THEN "dup" ELSE c
+\* What kinds of session this client object has already had.  The intended system does not depend on
+\* it, an implementation may (flags that survive from one connection to the next: "a resumption has
+\* succeeded before", "a session without stream management has been had", "a resumption was refused",
+\* "the user closed a session").  Part of the state for generation only (IqTrackerGenTourSess.cfg), so that
+\* the tour takes every transition again after each such history.
+SessEver ==
+    {x \in {"resumed", "plain", "refused", "user"} :
+        \E p \in 1..Len(hist) :
+            \/ x = "resumed" /\ hist[p].a = "Open" /\ hist[p].k = "resumed"
+            \/ x = "plain"   /\ hist[p].a = "Open" /\ hist[p].k = "plain"
+            \/ x = "refused" /\ hist[p].a = "Open" /\ hist[p].refused
+            \/ x = "user"    /\ hist[p].a = "Close" /\ hist[p].k = "user"}
+GenViewSess == <<up, smOn, canRes, resumable, dead, [i \in Ids |-> [st |-> req[i].st, by |-> req[i].by]], SessEver>>
 GenViewNoCid == <<up, smOn, canRes, resumable, dead, [i \in Ids |-> [st |-> req[i].st, to |-> req[i].to, by |-> req[i].by]]>>
 GenView == <<up, smOn, canRes, resumable, dead,
              [i \in Ids |-> [st |-> req[i].st, to |-> req[i].to, by |-> req[i].by,
